@@ -94,8 +94,24 @@ func checkCase(c Case) fw.Outcome {
 	src := xp.Join(toks, ws)
 	out.Key = src + "@" + c.Ctx.String()
 
-	m := &model{ctx: c.Ctx}
-	want, werr := xp.Eval(c.Expr, m)
+	// the machine is evaluated twice: at the context of the case, then one level deeper in a tree in which the list
+	// entries that only the first evaluation asked for do not exist - nothing of an earlier evaluation may show in a later one
+	ctxs := []tree.ID{c.Ctx, append(append(tree.ID{}, c.Ctx...), tree.Elem{Name: "second-run"})}
+	models := []*model{{ctx: ctxs[0]}, {ctx: ctxs[1]}}
+	wants := make([]xp.Val, 2)
+	werrs := make([]error, 2)
+	for i := range models {
+		wants[i], werrs[i] = xp.Eval(c.Expr, models[i])
+	}
+	onlyFirst := map[string]bool{}
+	for _, r := range models[0].reqs {
+		if r.Op == "GetValue" {
+			onlyFirst["val:"+r.ID] = true
+		}
+	}
+	for _, r := range models[1].reqs {
+		delete(onlyFirst, "val:"+r.ID)
+	}
 
 	var mapFn xpath.PfxMapFn
 	if c.MapFn {
@@ -106,51 +122,59 @@ func checkCase(c Case) fw.Outcome {
 		out.Violation = fmt.Sprintf("supported path expression %q does not compile: %v", src, err)
 		return out
 	}
-	tr := &tree.Tree{}
-	res := xpath.NewCtxFromCurrent(context.Background(), mach, tr.At(c.Ctx)).Run()
-	var got []Req
-	for _, call := range tr.Trace {
-		if call.Err != "" {
+	for pass := 0; pass < 2; pass++ {
+		m, want, werr := models[pass], wants[pass], werrs[pass]
+		tr := &tree.Tree{}
+		if pass == 1 {
+			tr.Absent = func(v string) bool { return onlyFirst[v] }
+		}
+		res := xpath.NewCtxFromCurrent(context.Background(), mach, tr.At(ctxs[pass])).Run()
+		var got []Req
+		for _, call := range tr.Trace {
+			if call.Err != "" {
+				continue
+			}
+			if call.Op == "GetValue" || call.Op == "FollowLeafRef" {
+				got = append(got, Req{call.Op, call.Recv})
+			}
+		}
+		describe := func() string {
+			var b strings.Builder
+			fmt.Fprintf(&b, "evaluation %d of the machine: expression %q at context %s\n expected requests: %v\n observed requests: %v\n trace:", pass+1, src, ctxs[pass], m.reqs, got)
+			for _, call := range tr.Trace {
+				fmt.Fprintf(&b, "\n   %s recv=%s arg=%s -> %s %s", call.Op, call.Recv, call.Arg, call.Result, call.Err)
+			}
+			return b.String()
+		}
+		if werr != nil {
+			// the path climbs above the root: the tree's error must surface
+			out.Labels = append(out.Labels, "above-root")
+			if res.GetError() == nil {
+				out.Violation = "path climbs above the root but the run reports no error\n" + describe()
+				return out
+			}
 			continue
 		}
-		if call.Op == "GetValue" || call.Op == "FollowLeafRef" {
-			got = append(got, Req{call.Op, call.Recv})
-		}
-	}
-	describe := func() string {
-		var b strings.Builder
-		fmt.Fprintf(&b, "expression %q at context %s\n expected requests: %v\n observed requests: %v\n trace:", src, c.Ctx, m.reqs, got)
-		for _, call := range tr.Trace {
-			fmt.Fprintf(&b, "\n   %s recv=%s arg=%s -> %s %s", call.Op, call.Recv, call.Arg, call.Result, call.Err)
-		}
-		return b.String()
-	}
-	if werr != nil {
-		// the path climbs above the root: the tree's error must surface
-		out.Labels = append(out.Labels, "above-root")
-		if res.GetError() == nil {
-			out.Violation = "path climbs above the root but the run reports no error\n" + describe()
-		}
-		return out
-	}
-	if res.GetError() != nil {
-		out.Violation = fmt.Sprintf("run error %v\n%s", res.GetError(), describe())
-		return out
-	}
-	if len(got) != len(m.reqs) {
-		out.Violation = "number of value requests differs\n" + describe()
-		return out
-	}
-	for i := range got {
-		if got[i] != m.reqs[i] {
-			out.Violation = fmt.Sprintf("value request %d differs\n%s", i+1, describe())
+		if res.GetError() != nil {
+			out.Violation = fmt.Sprintf("run error %v\n%s", res.GetError(), describe())
 			return out
 		}
-	}
-	// value of the expression
-	gs, _ := res.GetLiteralResult()
-	if ws := xp.ToStr(want); gs != ws {
-		out.Violation = fmt.Sprintf("value differs: got %q want %q\n%s", gs, ws, describe())
+		if len(got) != len(m.reqs) {
+			out.Violation = "number of value requests differs\n" + describe()
+			return out
+		}
+		for i := range got {
+			if got[i] != m.reqs[i] {
+				out.Violation = fmt.Sprintf("value request %d differs\n%s", i+1, describe())
+				return out
+			}
+		}
+		// value of the expression
+		gs, _ := res.GetLiteralResult()
+		if ws := xp.ToStr(want); gs != ws {
+			out.Violation = fmt.Sprintf("value differs: got %q want %q\n%s", gs, ws, describe())
+			return out
+		}
 	}
 	return out
 }
